@@ -136,3 +136,152 @@ theorem rep_simplex3 (t : Tri K) (hwf : TriWF t)
   · simpa [baryAttr] using c2.symm
   · simp [baryPos, comb4]
   · simpa [baryAttr] using c3.symm
+
+/-! ### Triangles of the barycentric plane and the fan -/
+
+structure Tri2 (K : Type) where
+  a : Pt K
+  b : Pt K
+  c : Pt K
+
+def fan2 (a : Pt K) : List (Pt K) → List (Tri2 K)
+  | e0 :: e1 :: rest => ⟨a, e0, e1⟩ :: fan2 a (e1 :: rest)
+  | _ => []
+
+def TriRep (t : Tri K) (s : Tri2 K) (tri : Tri K) : Prop :=
+  Rep t s.a tri.a ∧ Rep t s.b tri.b ∧ Rep t s.c tri.c
+
+theorem rep_fan (t : Tri K) (ca : Pt K) (va : ClipVert K) (ha : Rep t ca va)
+    (cs : List (Pt K)) (vs : List (ClipVert K)) (h : List.Forall₂ (Rep t) cs vs) :
+    List.Forall₂ (TriRep t) (fan2 ca cs) (fan va vs) := by
+  induction h with
+  | nil => exact List.Forall₂.nil
+  | cons h0 hrest ih =>
+    cases hrest with
+    | nil => exact List.Forall₂.nil
+    | cons h1 hrest' => exact List.Forall₂.cons ⟨ha, h0, h1⟩ ih
+
+/-- The coordinates of the output of `clipTri t`, computed entirely in the barycentric plane
+(only the trivial accept/reject test reads the stored outcodes). -/
+def clipTri2 (t : Tri K) : List (Tri2 K) :=
+  match status [t.a, t.b, t.c] with
+  | .visible => [⟨(0, 0), (1, 0), (0, 1)⟩]
+  | .hidden => []
+  | .clipped =>
+    match clipAll2 t planes simplex3 with
+    | [] => []
+    | a :: rest => fan2 a rest
+
+theorem clipPolygon_planes (vs : List (ClipVert K)) :
+    clipPolygon planes vs = clipAll planes vs := by
+  rw [clipPolygon_eq, planes_eq]; simp
+
+/-- **`clipTri t` is, vertex for vertex, the 2-D fan `clipTri2 t`.** -/
+theorem rep_clipTri (t : Tri K) (hwf : TriWF t)
+    (hlen : t.a.attr.length = t.b.attr.length ∧ t.b.attr.length = t.c.attr.length) :
+    List.Forall₂ (TriRep t) (clipTri2 t) (clipTri t) := by
+  have h3 := rep_simplex3 t hwf hlen
+  unfold clipTri clipTri2
+  cases hs : status [t.a, t.b, t.c] with
+  | visible =>
+    simp only [simplex3, triVerts, List.forall₂_cons, List.forall₂_nil_left_iff, and_true] at h3
+    exact List.Forall₂.cons ⟨h3.1, h3.2.1, h3.2.2⟩ List.Forall₂.nil
+  | hidden => exact List.Forall₂.nil
+  | clipped =>
+    simp only
+    have hall := rep_clipAll t planes (fun p hp => hp) _ _ h3
+    rw [clipPolygon_planes]
+    change List.Forall₂ (Rep t) (clipAll2 t planes simplex3) (clipAll planes [t.a, t.b, t.c]) at hall
+    generalize clipAll2 t planes simplex3 = cs at hall ⊢
+    generalize clipAll planes [t.a, t.b, t.c] = vs at hall ⊢
+    cases hall with
+    | nil => exact List.Forall₂.nil
+    | cons h0 hrest => exact rep_fan t _ _ h0 _ _ hrest
+
+theorem fan2_orient (a : Pt K) (l : List (Pt K)) (h : Conv (a :: l)) :
+    ∀ s ∈ fan2 a l, 0 ≤ orient2 s.a s.b s.c := by
+  induction l with
+  | nil => simp [fan2]
+  | cons e0 l ih =>
+    cases l with
+    | nil => simp [fan2]
+    | cons e1 l =>
+      intro s hs
+      simp only [fan2, List.mem_cons] at hs
+      rcases hs with rfl | hs
+      · exact (List.pairwise_cons.mp h.1).1 e1 (by simp)
+      · exact ih (Conv.sublist (by simp) h) s hs
+
+/-- the polygon `clipTri2 t` fans out, when the triangle is neither accepted nor rejected -/
+theorem conv_clipAll2_simplex (t : Tri K) : Conv (clipAll2 t planes simplex3) :=
+  conv_clipAll2 t planes _ conv_simplex3
+
+/-- 2-D form of winding preservation -/
+theorem clipTri2_orient (t : Tri K) : ∀ s ∈ clipTri2 t, 0 ≤ orient2 s.a s.b s.c := by
+  unfold clipTri2
+  cases status [t.a, t.b, t.c] with
+  | visible => intro s hs; simp only [List.mem_singleton] at hs; subst hs; simp [orient2]
+  | hidden => simp
+  | clipped =>
+    simp only
+    have hc := conv_clipAll2_simplex t
+    cases hl : clipAll2 t planes simplex3 with
+    | nil => simp
+    | cons a rest => rw [hl] at hc; exact fan2_orient a rest hc
+
+/-! ### Coordinates stay in the simplex -/
+
+theorem inSimplex_clipAll2 (t : Tri K) (ps : List (Plane K)) :
+    ∀ cs : List (Pt K), (∀ c ∈ cs, InSimplex c) → ∀ c ∈ clipAll2 t ps cs, InSimplex c := by
+  induction ps with
+  | nil => intro cs h; exact h
+  | cons p ps ih =>
+    intro cs h
+    exact ih _ (clipPlane2_preserves InSimplex _ inSimplex_lerp cs h)
+
+theorem inSimplex_simplex3 : ∀ c ∈ (simplex3 : List (Pt K)), InSimplex c := by
+  intro c hc
+  simp only [simplex3, List.mem_cons, List.mem_nil_iff, or_false] at hc
+  rcases hc with rfl | rfl | rfl <;> simp [InSimplex]
+
+theorem mem_fan2 (a : Pt K) (l : List (Pt K)) (s : Tri2 K) (h : s ∈ fan2 a l) :
+    s.a = a ∧ s.b ∈ l ∧ s.c ∈ l := by
+  induction l with
+  | nil => simp [fan2] at h
+  | cons e0 l ih =>
+    cases l with
+    | nil => simp [fan2] at h
+    | cons e1 l =>
+      simp only [fan2, List.mem_cons] at h
+      rcases h with rfl | h
+      · simp
+      · obtain ⟨h1, h2, h3⟩ := ih (by simpa [List.mem_cons] using h)
+        exact ⟨h1, List.mem_cons_of_mem _ h2, List.mem_cons_of_mem _ h3⟩
+
+theorem clipTri2_inSimplex (t : Tri K) :
+    ∀ s ∈ clipTri2 t, InSimplex s.a ∧ InSimplex s.b ∧ InSimplex s.c := by
+  unfold clipTri2
+  cases status [t.a, t.b, t.c] with
+  | visible => intro s hs; simp only [List.mem_singleton] at hs; subst hs; simp [InSimplex]
+  | hidden => simp
+  | clipped =>
+    simp only
+    have hc := inSimplex_clipAll2 t planes simplex3 inSimplex_simplex3
+    cases hl : clipAll2 t planes simplex3 with
+    | nil => simp
+    | cons a rest =>
+      rw [hl] at hc
+      intro s hs
+      obtain ⟨h1, h2, h3⟩ := mem_fan2 a rest s hs
+      exact ⟨h1 ▸ hc a (by simp), hc _ (List.mem_cons_of_mem _ h2), hc _ (List.mem_cons_of_mem _ h3)⟩
+
+theorem forall₂_mem_right {α β : Type} {R : α → β → Prop} {l1 : List α} {l2 : List β}
+    (h : List.Forall₂ R l1 l2) : ∀ y ∈ l2, ∃ x ∈ l1, R x y := by
+  induction h with
+  | nil => simp
+  | cons h0 _ ih =>
+    intro y hy
+    rcases List.mem_cons.mp hy with rfl | hy
+    · exact ⟨_, by simp, h0⟩
+    · obtain ⟨x, hx, hr⟩ := ih y hy
+      exact ⟨x, List.mem_cons_of_mem _ hx, hr⟩
